@@ -107,13 +107,14 @@ CLAIMED['C02'] = dict(
     note='Trusted: Lean kernel; difflib reflexivity and soundness of all-equal answers (both checked by the harness on the real difflib); SHA-256 collision freedom for the set case. Input non-mutation, numpy, datetimes and the tree view observed only. Known findings F5e, F39.',
     technique='Lean 4 proof (mutual structural induction over the value, both directions) + differential correspondence')
 CLAIMED['C03'] = dict(
-    text='Lean 4 theorems: in positional mode the model never takes the dictionary shortcut, never consults the alignment oracle and records no opcodes, i.e. it is the '
-         'pairwise recursion for every input. ' + _DIFFMODEL + 'The complete verbose text view of the implementation is compared with an independent ~70-line Python '
-         'specification of structural difference on every generated pair (types, values, paths, unified diffs recomputed and compared verbatim). The Lean statement '
-         'against a Lean copy of the specification is not proved yet.',
+    text='Lean 4 theorem (C03_model_eq_spec): in positional mode with threshold 0, for every pair of values of any size and nesting (dictionaries with pairwise different hashable keys '
+         'from a universe on which == is identity), the entries of the model tree - category, path steps, both values, text-diff flag - are exactly the entries of specV, a Lean copy of '
+         'the recursive definition of structural difference (nothing missing, nothing extra, nothing at another path; as a multiset, the definition being a dictionary keyed by path). '
+         'Lemmas: the model never takes the dictionary shortcut, never consults the alignment oracle and records no opcodes. ' + _DIFFMODEL + 'The complete verbose text view of the '
+         'implementation is compared with the same definition written in Python (~70 lines) on every generated pair (types, values, paths, unified diffs recomputed and compared verbatim).',
     design='5/C03',
-    note='Trusted: Lean kernel; the Python specification and canonicaliser; difflib.unified_diff. Partial: model = spec is evaluated (implementation vs spec), not a theorem.',
-    technique='Lean 4 proof (oracle independence by mutual induction) + differential correspondence + executable specification')
+    note='Trusted: Lean kernel; the Python copy of the specification and the canonicaliser; difflib.unified_diff (the text-diff flag is modelled, the diff text is compared on the implementation). The final merge of add/remove pairs is outside the theorem (stated for report_repetition=True, or for the tree before the merge).',
+    technique='Lean 4 proof (model = recursive specification up to permutation, mutual induction) + differential correspondence + executable specification')
 CLAIMED['C04'] = dict(
     text='Lean 4 theorem: for every alignment oracle (valid or not), both modes, every threshold, whichever pass wins, any size/nesting, every non-set entry of the diff of '
          'two well-formed values extends the root, its t1 is what the t1-side params lead to in t1 and its t2 what the t2-side params lead to in t2 (changed values/types, '
